@@ -150,7 +150,7 @@ theorem flatten_map_singleton' {β : Type} (l : List β) : (l.map (fun v => [v])
 
 theorem getReward_eq (chans : List (Chan α)) (centreR : List α → List α) (W : List (List α)) (s a : List α) :
     getReward chans centreR W s a =
-      (rewardCategory chans W s a).bind (fun c => (W[c]?).map (fun w => centreR (slice (widths chans) 2 w))) := by
+      (rewardCategory chans W s a).bind (fun c => (W[c]?).map (fun w => centreR (slice (wlens chans) 2 w))) := by
   unfold getReward
   cases rewardCategory chans W s a with
   | none => rfl
